@@ -85,9 +85,9 @@ func Coord(u uint32, w int) float32 {
 func ZeroToOne(u uint32, w int) float32 {
 	switch w {
 	case 1:
-		return float32(float64(u) / 120)
+		return float32(u) / 120 // float32 division of exact operands: correctly rounded
 	case 2:
-		return float32(float64(u) / 15120)
+		return float32(u) / 15120
 	}
 	return math.Float32frombits(u << 2)
 }
